@@ -14,6 +14,25 @@ CHECKS = {
    note="Bounded constants (objects, reference counts); scripted random() never repeats a check word; TLC, clang ASan/UBSan and the harness projection (h_hdb.c) are trusted.",
    technique="TLA+ model checking (TLC) + model-generated histories replayed on the C code + TLC trace validation",
    design_ref="DESIGN.md section 4, C20"),
+ "C17": dict(
+   text="spec/Map.tla specifies the three map implementations as a dictionary with map-wide, per-key, recursive-prefix and "
+        "value-release notifiers (per-implementation profile as a constant); TLC checks its invariants exhaustively for bounded "
+        "constants. Binding: every model history up to a fixed depth over structurally aliasing keys plus long random walks of the "
+        "model are executed on the real hashtable, skiplist and trie (ASan/UBSan build of the working tree) and every recorded "
+        "return value, traversal and notifier invocation is validated by TLC against the same specification (MapTrace.tla).",
+   note="Bounded key alphabet (8 aliasing keys), non-NULL values, notifier callbacks do not re-enter the map; trie order asserted only where signed and unsigned byte order agree; TLC, sanitizers and h_map.c projection trusted.",
+   technique="TLA+ model checking (TLC) + model-generated histories replayed on the C code + TLC trace validation",
+   design_ref="DESIGN.md section 4, C17"),
+ "C18": dict(
+   text="The iterator part of spec/Map.tla states the C18 guarantees as bookkeeping per open iterator (keys present throughout, "
+        "keys present at some time, keys already returned, removals-only flag); TLC checks it exhaustively for bounded constants. "
+        "Binding: all interleavings of iterator create/next/free with put/rm/get up to a fixed depth, plus random walks with up to three "
+        "iterators, are executed on the three real implementations under ASan and each history ends with the iterators freed and a full "
+        "dictionary probe; TLC validates every recorded result (MapTrace.tla). Steps that fall under the four recorded findings are left "
+        "out of generated behaviours and re-checked by directed reproducers.",
+   note="Bounded histories and key alphabet; iterators are not advanced past their end; memory safety is observed by ASan/UBSan; known findings KF-C18-1..4 are excluded by trigger (harness --kf-skip).",
+   technique="TLA+ model checking (TLC) + model-generated interleavings replayed on the C code + TLC trace validation + sanitizer monitor",
+   design_ref="DESIGN.md section 4, C18"),
 }
 
 PENDING_REASON = "not claimed yet: specification and binding harness for this property are not built at this commit (see DESIGN.md section 4 for the plan)"
